@@ -14,7 +14,10 @@ LEVEL = ("def-use analysis on the template flow graph: each generated scope (cla
          "model.py.jinja and endpoint_module.py.jinja is unrolled into a stream of BIND/READ events of (a) identifiers written "
          "by template text and (b) name holes filled from document-derived python names (with their affixes); for every fixed "
          "name that a hole can produce (statically evaluated reserved list, snake-case fixed points, per-root name languages) "
-         "the collision must be harmless. For-all over names: the set of fixed names is read from the templates on every run.")
+         "the collision must be harmless. For-all over names: the set of fixed names is read from the templates on every run. "
+         "The same stream decides the lexical position of every name hole (code / string literal that is data / documentation), "
+         "the collisions of two holes of different name languages, and - with a flow-insensitive dependence closure over the "
+         "parser's syntax trees - where the fields of a prepared format string come from.")
 
 TEMPLATES = ("model.py.jinja", "endpoint_module.py.jinja")
 
@@ -53,21 +56,40 @@ def snake_fixed_point(m: str, reserved: frozenset[str]) -> bool:
     return all(part for part in body.split("_"))
 
 
-def could_be(root: str, m: str, reserved: frozenset[str], endpoint_reserved: set[str], template: str) -> bool:
-    """Can a hole rooted at `root` hold the python name m ?  (name languages per root; frozen, one reason each)"""
+# The names a hole can hold, by what its root ranges over (frozen, one reason each): the fixed names the parser gives
+FIXED_NAMES = {
+    "response": ("response_200",),                      # response_from_data: name = f"response_{status_code}" (any status code)
+    "body": ("body",),                                  # body_from_data: name="body"
+    "additional": ("additional", "additional_property"),  # ANY_ADDITIONAL_PROPERTY / name="AdditionalProperty"
+}
+
+
+def name_language(root: str) -> tuple[str, int]:
+    """(which names the root ranges over - a key of FIXED_NAMES, or "name": the document's own names -, how many item / member
+    derivations follow)"""
     n_inner = len(re.findall(r"inner_propert", root))
+    if re.search(r"response", root):
+        return "response", n_inner
+    if re.search(r"\bbod(y|ies)\b", root):
+        return "body", n_inner
+    if "additional_properties" in root:
+        return "additional", n_inner
+    return "name", n_inner
+
+
+def could_be(root: str, m: str, reserved: frozenset[str], endpoint_reserved: set[str], template: str) -> bool:
+    """Can a hole rooted at `root` hold the python name m ?"""
+    kind, n_inner = name_language(root)
     for _ in range(n_inner):
         # list items are named <name>_item, union members <name>_type_<i> (ListProperty.build / UnionProperty.build)
         mm = re.fullmatch(r"(.+?)(_item|_type_\d+)", m)
         if not mm:
             return False
         m = mm.group(1)
-    if re.search(r"response", root):
-        return bool(re.fullmatch(r"response_\d+", m))  # response_from_data: name = f"response_{status_code}"
-    if re.search(r"\bbod(y|ies)\b", root):
-        return m == "body"  # body_from_data: name="body"
-    if "additional_properties" in root:
-        return m in ("additional", "additional_property")  # ANY_ADDITIONAL_PROPERTY / name="AdditionalProperty"
+    if kind == "response":
+        return bool(re.fullmatch(r"response_\d+", m))
+    if kind != "name":
+        return m in FIXED_NAMES[kind]
     if not snake_fixed_point(m, reserved):
         return False
     if template.startswith("endpoint") and m in endpoint_reserved:
@@ -113,6 +135,22 @@ class CanonWalker(SkelWalker):
     their order. `if not C: A else: B` and `if C: B else: A` are the same decision (as are `a != b` / `a == b` and `a not in b` /
     `a in b`): the branches are laid out in the order of the positive test, whichever way the template spells it."""
 
+    # what the parser guarantees about the item of a list / the members of a union (`inner_property`, `inner_properties[*]`): they are
+    # built with required=True (read from the build methods by `inner_properties_required`), so a test of `.required` on them is
+    # decided - the branch for optional properties is never written for them
+    inner_required = False
+
+    def _const_test(self, test: Any, env: dict[str, Any]) -> "bool | None":  # type: ignore[override]
+        from jinja2 import nodes
+
+        got = SkelWalker._const_test(test, env)
+        if got is not None or not self.inner_required:
+            return got
+        t, neg = (test.node, True) if isinstance(test, nodes.Not) else (test, False)
+        if isinstance(t, nodes.Getattr) and t.attr == "required" and re.search(r"\.inner_propert(y|ies\[\*\])$", self.root_of(t.node, env)):
+            return not neg
+        return None
+
     @staticmethod
     def _positive(test: Any) -> "tuple[Any, bool]":
         """(the test stated positively, whether the given test is its negation)"""
@@ -145,6 +183,32 @@ class CanonWalker(SkelWalker):
         return super().sym(e, env, tname)
 
 
+def inner_properties_required(ix: Any) -> bool:
+    """Every property that a property class with an `inner_property` / `inner_properties` field builds for that field (in `build` or
+    the private helpers it delegates to) is built with the literal required=True."""
+    n = 0
+    for c in ix.property_classes():
+        fields = ix.all_fields(c)
+        if not ({"inner_property", "inner_properties"} & set(fields)):
+            continue
+        b = ix.find_method(c, "build")
+        if b is None:
+            return False
+        calls = [k for g in region(ix, b) for k in ast.walk(g.node) if isinstance(k, ast.Call)
+                 and norm(k.func).rsplit(".", 1)[-1] == "property_from_data"]
+        if not calls:
+            return False
+        for k in calls:
+            req = next((kw.value for kw in k.keywords if kw.arg == "required"), None)
+            vals = [req]
+            if isinstance(req, ast.Name):
+                vals = [v for g in region(ix, b) for v in Locals(g.node).values_of(req.id)] or [req]
+            if not all(isinstance(v, ast.Constant) and v.value is True for v in vals):
+                return False
+            n += 1
+    return n > 0
+
+
 def class_reads(rep: Report, sc: Scope, tn: str, path: str, reserved: frozenset[str], endpoint_reserved: set[str],
                 module_names: set[str]) -> None:
     """Decided for the names the template text itself binds at module level (its imports, assignments and defs: the names it could
@@ -170,6 +234,281 @@ def class_reads(rep: Report, sc: Scope, tn: str, path: str, reserved: frozenset[
                      f"(e.g. skeleton line {ev.line}: `{ev.text}`): the class statement evaluates the document's value",
                      where=f"{PKG}/templates/{tn} (scope {path})", lhs=f"fixed name `{t}`", rhs="not producible, or read before any "
                      "document-named assignment", example=ev.text)
+
+
+# ---- R18.3: the two spellings of a document name keep to their roles ------------------------------------------------------
+CODE_KINDS = ("BIND", "READ", "PARAM", "ATTRBIND")
+
+
+def spelling_roles(rep: Report, tn: str, scopes: "list[Scope]") -> tuple[int, int]:
+    """Every document entity has two spellings: its own name (what is on the wire: dict keys, header / cookie / query names) and the
+    Python identifier made from it (`python_name`, which the generator renames freely: reserved words, conflicts, prefixes).  A
+    renaming changes only the identifier as long as the identifier is never written where data is written - inside a string
+    literal - and the document's own name never where code is written.  Decided on the skeleton, so however the text reaches the
+    line (inline, through `set`, concatenation, a helper macro, a call block)."""
+    evs = [(sc, e) for sc in scopes for e in sc.events]
+    sites = sorted({e.site for _sc, e in evs if e.hole and e.site and e.kind in CODE_KINDS + ("STRHOLE",)})
+    for site in sites:
+        bad = [(sc, e) for sc, e in evs if e.kind == "STRHOLE" and e.site == site]
+        key = f"{tn}::{site}::identifier-in-string"
+        if not bad:
+            rep.ok("R18.3", key, f"python names written in {site}", "stand in code, never inside a string literal")
+            continue
+        sc, e = bad[0]
+        rep.fail("R18.3", key, f"the Python identifier of a document name ({e.root}) is written inside a string literal of the generated "
+                               f"code (scope {sc.path()}, skeleton line {e.line}: `{_show(e.text)}`): what the string holds - a key, a wire "
+                               f"name - then changes whenever the generator renames the identifier",
+                 where=f"{PKG}/templates/{site.split('::')[0]} ({site.split('::')[-1]})", lhs=e.root, rhs="inside string literals "
+                 "the document's own name (`.name`)", example=_show(e.text))
+    carriers = {e.root[:-len(".python_name")] for _sc, e in evs if e.hole and e.kind in CODE_KINDS + ("STRHOLE",)
+                and e.root.endswith(".python_name")}
+    raws = sorted({e.root for _sc, e in evs if e.kind in ("RAWCODE", "RAWSTR") and e.root.endswith(".name")
+                   and e.root[:-len(".name")] in carriers})
+    for raw in raws:
+        bad = [(sc, e) for sc, e in evs if e.kind == "RAWCODE" and e.root == raw]
+        key = f"{tn}::{raw}::raw-name-in-code"
+        if not bad:
+            rep.ok("R18.3", key, f"`{raw}`", "stands inside string literals only")
+            continue
+        sc, e = bad[0]
+        rep.fail("R18.3", key, f"the document's own spelling of a name (`{raw}`) is written into code, outside every string literal (scope "
+                               f"{sc.path()}, skeleton line {e.line}: `{_show(e.text)}`): no renaming protects it from the generated "
+                               f"code's own names, keywords included",
+                 where=f"{PKG}/templates/{tn} (scope {sc.path()})", lhs=raw, rhs="in code the identifier made from it (`.python_name`)",
+                 example=_show(e.text))
+    return len(sites), len(raws)
+
+
+def _show(text: str) -> str:
+    return re.sub("[\ue000\ue001]\\d+[\ue000\ue001]", "<..>", text)
+
+
+# ---- R18.4: two document names, one identifier -------------------------------------------------------------------------------
+def hole_class(e: Event) -> tuple[str, int, str]:
+    """Holes of one class spell different document entities differently (names are unique within their name space, and one
+    derivation with one affix keeps them so): only holes of different classes can spell two entities alike."""
+    kind, n = name_language(e.root)
+    return kind, n, e.name
+
+
+def class_text(c: tuple[str, int, str]) -> str:
+    kind, n, pat = c
+    base = {"name": "<name>", "response": "response_<code>"}.get(kind) or FIXED_NAMES[kind][-1]
+    pre, _, suf = pat.partition("\x00")
+    return pre + base + ("(_item|_type_<i>)+" if n else "") + suf  # (how deep the items are nested is no part of the key)
+
+
+def _base(e: Event) -> str:
+    r = e.root
+    k = r.find(".inner_propert")
+    r = r[:k] if k >= 0 else r
+    return r[:-len(".python_name")] if r.endswith(".python_name") else r
+
+
+def _nested(a: str, b: str) -> bool:
+    """one of the two lists of loop rounds continues the other (the same round of the loops they share)"""
+    x, y = (a.split("/") if a else []), (b.split("/") if b else [])
+    n = min(len(x), len(y))
+    return x[:n] == y[:n]
+
+
+def same_base(a: Event, b: Event) -> bool:
+    """both holes are derived from one document entity (one object, the same round of the template loops): their spellings differ
+    by construction"""
+    return _base(a) == _base(b) and _nested(a.inst, b.inst)
+
+
+def same_entity(a: Event, b: Event) -> bool:
+    return a.root == b.root and a.name == b.name and _nested(a.inst, b.inst)
+
+
+def witnesses(patterns: "set[str]") -> list[str]:
+    """candidate spellings: a plain name and the fixed names of the other name spaces, under up to three of the derivations
+    (item / member suffix, each affix written by the template)"""
+    ops = [("", "_item"), ("", "_type_0")] + sorted(tuple(p.split("\x00", 1)) for p in patterns if "\x00" in p and p != "\x00")
+    level = {"x"} | {t for ts in FIXED_NAMES.values() for t in ts}
+    out = set(level)
+    for _ in range(3):
+        level = {pre + w + suf for w in level for pre, suf in ops} - out
+        out |= level
+    return sorted(out, key=lambda t: (len(t), t))
+
+
+def collisions(sc: Scope, tn: str, path: str, reserved: frozenset[str], endpoint_reserved: set[str]) -> tuple[int, dict[str, list]]:
+    """Within one generated function, two holes of different classes whose name languages overlap can be the same identifier for
+    two different document entities (a property `a_item` and the items of a list `a`; a property `a_data` and the raw value of `a`).
+    Harmful when a read through one class can come after a binding through the other with no binding of its own in between.
+    -> (pairs of overlapping classes examined, verdict per construct key)"""
+    binds = [e for e in sc.events if e.hole and e.kind in ("BIND", "PARAM")]
+    reads = [e for e in sc.events if e.hole and e.kind == "READ"]
+
+    def nested(g: Scope) -> None:
+        # a read in a nested function is a read of this function's local unless the nested function binds that spelling itself
+        own = {hole_class(e) for e in g.events if e.hole and e.kind in ("BIND", "PARAM")}
+        reads.extend(e for e in g.events if e.hole and e.kind == "READ" and hole_class(e) not in own)
+        for ch in g.children:
+            if ch.kind == "function":
+                nested(ch)
+
+    for ch in sc.children:
+        if ch.kind == "function":
+            nested(ch)
+    reads.sort(key=lambda e: e.pos)
+    classes: dict[tuple[str, int, str], Event] = {}
+    for e in binds + reads:
+        classes.setdefault(hole_class(e), e)
+    cands = witnesses({c[2] for c in classes})
+    lang = {c: {t for t in cands if producible(t, rep_ev, reserved, endpoint_reserved, tn)} for c, rep_ev in classes.items()}
+    n_pairs = 0
+    verdicts: dict[str, list] = {}  # key -> [classes as text, example spelling, (binding, read) that shows the harm | None, parameters]
+    for ca in sorted(classes):
+        reads_a = [e for e in reads if hole_class(e) == ca]
+        binds_a = [e for e in binds if hole_class(e) == ca]
+        if not reads_a or not binds_a:
+            continue
+        first_a = min(e.pos for e in binds_a)
+        for cb in sorted(classes):
+            common = lang[ca] & lang[cb]
+            binds_b = [e for e in binds if hole_class(e) == cb]
+            if cb == ca or not common or not binds_b:
+                continue
+            n_pairs += 1
+            t = min(common, key=lambda x: (len(x), x))
+            v = verdicts.setdefault(f"{tn}::{path}::{class_text(ca)}~{class_text(cb)}", [(class_text(ca), class_text(cb)), t, None, None])
+            for r in reads_a:
+                prior = [b for b in binds_b if first_a < b.pos < r.pos and not same_base(b, r)]
+                if not prior:
+                    continue
+                b = max(prior, key=lambda e: e.pos)
+                if any(b.pos < a.pos < r.pos and same_entity(a, r) for a in binds_a):
+                    continue
+                if v[2] is None or len(t) < len(v[1]):
+                    v[1], v[2] = t, (b, r)
+                break
+            pa = [e for e in binds_a if e.kind == "PARAM"]
+            pb = [e for e in binds_b if e.kind == "PARAM"]
+            if pa and pb and ca < cb and v[3] is None:
+                v[3] = (pa[0], pb[0], t)
+    return n_pairs, verdicts
+
+
+def hole_collisions(rep: Report, sc: Scope, tn: str, path: str, reserved: frozenset[str], endpoint_reserved: set[str]) -> int:
+    n_pairs, verdicts = collisions(sc, tn, path, reserved, endpoint_reserved)
+    for base, ((ta, tb), t, harm, params) in sorted(verdicts.items()):
+        if params is not None:
+            rep.fail("R18.4", f"{base}::duplicate-parameter",
+                     f"two document names can give one parameter name in {path} (e.g. `{params[2]}`)",
+                     where=f"{PKG}/templates/{tn} (scope {path})", lhs=ta, rhs=tb, example=params[2])
+        if harm is None:
+            rep.ok("R18.4", base, f"{ta} / {tb} (e.g. `{t}`)", "no read through the first can follow a binding through the second "
+                   "without a binding of its own in between")
+            continue
+        b, r = harm
+        rep.fail("R18.4", f"{base}::document-value-clobbered",
+                 f"in {path} a document name spelled {ta} and another one spelled {tb} can be the same identifier (e.g. `{t}`), and the "
+                 f"value bound for the first is overwritten through the second before it is read (written in {b.site}, skeleton line "
+                 f"{b.line}: `{_show(b.text)}` ... line {r.line}: `{_show(r.text)}`)",
+                 where=f"{PKG}/templates/{tn} (scope {path})", lhs=f"{ta} = `{t}`", rhs="no other hole of the scope can spell it, or no "
+                 "read of it follows the other's binding", example=_show(b.text))
+    return n_pairs
+
+
+# ---- R18.5: fields of a prepared format string ----------------------------------------------------------------------------------
+def _callee(ix: Any, f: Any, c: ast.Call) -> Any:
+    """the function of f's module (or a method of f's class) that the call names, if any"""
+    last = (norm(c.func).rsplit(".", 1)[-1])
+    hits = [h for h in ix.all_functions if h.name == last and h.module is f.module and h is not f]
+    return hits[0] if len(hits) == 1 else None
+
+
+def _bound_args(h: Any, c: ast.Call) -> dict[str, ast.AST]:
+    names = [a.arg for a in [*h.node.args.posonlyargs, *h.node.args.args]]
+    if h.cls is not None and names and names[0] in ("self", "cls"):
+        names = names[1:]
+    out: dict[str, ast.AST] = {n: a for n, a in zip(names, c.args)}
+    out.update({k.arg: k.value for k in c.keywords if k.arg})
+    return out
+
+
+def depends_on(ix: Any, f: Any, e: ast.AST, hit: Any, args: "dict[str, tuple[Any, ast.AST, dict]] | None" = None, depth: int = 0) -> bool:
+    """Does the value of expression e of function f depend - through locals (every binding of them), comprehensions, lambdas, the
+    arguments it was called with (`args`: parameter -> (calling function, expression, its own args)) and the return values of the
+    functions of the module that it calls - on a sub-expression for which hit(function, node, args) holds?  Flow-insensitive."""
+    args = args or {}
+    lc = Locals(f.node)
+    seen: set[str] = set()
+    work = [e]
+    while work:
+        x = work.pop()
+        for n in ast.walk(x):
+            if hit(f, n, args):
+                return True
+            if isinstance(n, ast.Name) and n.id not in seen:
+                seen.add(n.id)
+                work.extend(lc.values_of(n.id))
+                if n.id in args and depth < 4:
+                    g, a, ga = args[n.id]
+                    if depends_on(ix, g, a, hit, ga, depth + 1):
+                        return True
+            if isinstance(n, ast.Call) and depth < 4:
+                h = _callee(ix, f, n)
+                if h is not None:
+                    ha = {k: (f, v, args) for k, v in _bound_args(h, n).items()}
+                    for r in ast.walk(h.node):
+                        if isinstance(r, ast.Return) and r.value is not None and depends_on(ix, h, r.value, hit, ha, depth + 1):
+                            return True
+    return False
+
+
+def python_name_of_members(ix: Any, coll: str) -> Any:
+    """hit predicate: `<x>.python_name` where x is the variable of a loop / comprehension over something that depends on `<..>.coll`"""
+    def over_coll(f: Any, n: ast.AST, args: dict) -> bool:
+        return isinstance(n, ast.Attribute) and n.attr == coll
+
+    def hit(f: Any, n: ast.AST, args: dict) -> bool:
+        if not (isinstance(n, ast.Attribute) and n.attr == "python_name" and isinstance(n.value, ast.Name)):
+            return False
+        for kind, _st, it in Locals(f.node).defs.get(n.value.id, []):
+            if kind.startswith("for") and it is not None and depends_on(ix, f, it, over_coll, args, 1):
+                return True
+        return False
+    return hit
+
+
+def format_fields(rep: Report, ix: Any, tn: str, scopes: "list[Scope]") -> int:
+    """`"<prepared string>".format(<python_name of each member of a collection>=...)`: the fields of the prepared string have to be
+    spelled exactly like the keywords, so whatever the generator does to an identifier (reserved words, conflicts between locations,
+    prefixes) it has to do to the field - the string is written from the `python_name` of the members of that same collection."""
+    sites: dict[tuple[str, str], tuple[Scope, Event]] = {}
+    for sc in scopes:
+        for e in sc.events:
+            if e.kind == "FMTKW":
+                sites.setdefault((e.ref, e.root), (sc, e))
+    for (ref, root), (sc, e) in sorted(sites.items()):
+        m1 = re.fullmatch(r"(\w+)\.(\w+)", ref)
+        m2 = re.fullmatch(r"(\w+)\.(\w+)\[\*\]\.python_name", root)
+        rep.require(m1 and m2 and m1.group(1) == m2.group(1), f"format string `{ref}` and keywords `{root}` of one template object")
+        attr, coll = m1.group(2), m2.group(2)
+        owners = [c for c in ix.classes.values() if attr in ix.all_fields(c) and coll in ix.all_fields(c)]
+        rep.require(owners, f"a class with the fields {attr} and {coll}")
+        hit = python_name_of_members(ix, coll)
+        stores = []
+        for c in owners:
+            for f in ix.all_functions:
+                if f.module is not c.module:
+                    continue
+                for n in ast.walk(f.node):
+                    tg = n.targets if isinstance(n, ast.Assign) else [n.target] if isinstance(n, (ast.AnnAssign, ast.AugAssign)) else []
+                    if any(isinstance(t, ast.Attribute) and t.attr == attr for t in tg) and getattr(n, "value", None) is not None:
+                        stores.append((f, n))
+        good = [(f, n) for f, n in stores if depends_on(ix, f, n.value, hit)]
+        rep.check(bool(good), "R18.5", f"{tn}::{sc.path()}::{ref}.format({root})",
+                  f"the generated code formats `{ref}` with the python names of `{m2.group(1)}.{coll}` as keywords (skeleton line {e.line}), "
+                  f"but no store to `.{attr}` in {owners[0].module.rel} writes a value that depends on the `python_name` of the members of "
+                  f"`.{coll}`: a field keeps a spelling that differs from the keyword whenever the generator renames the identifier",
+                  where=f"{owners[0].module.rel} (stores to .{attr}: lines {sorted(n.lineno for _f, n in stores)})",
+                  lhs=f"stores to .{attr}: {len(stores)}", rhs=f"one written from <member of .{coll}>.python_name")
+    return len(sites)
 
 
 def _strings_of(ix: Any, g: Any, e: ast.AST, lc: Locals, depth: int = 0) -> "list[str] | None":
@@ -234,6 +573,15 @@ def run(rep: Report, ctx: Any) -> str:
                       "template binds at module level after a document-named attribute was assigned")
     rep.rule("R18.2", "the reserved-word renaming is applied on every path of both name constructors and the operation-parameter "
                       "reservation exists")
+    rep.rule("R18.3", "the two spellings of a document name keep to their roles: the Python identifier made from it (`python_name`, which "
+                      "the generator renames) is never written inside a string literal of the generated code - where keys and wire names "
+                      "stand - and the document's own spelling (`name` of an object that has a `python_name`) never outside one")
+    rep.rule("R18.4", "within one generated function no two holes of different classes (name space, item / member derivation, affix) "
+                      "whose name languages overlap are used so that a read through one can follow a binding through the other with no "
+                      "binding of its own entity in between (two document names, one local), and no two such holes are parameters")
+    rep.rule("R18.5", "where the generated code formats a string that the generator prepared with the python names of the members of a "
+                      "collection as keywords, some store to that string's attribute writes a value that depends on the `python_name` of "
+                      "the members of the same collection (through locals, comprehensions, lambdas and helper functions of the module)")
     reserved = ch.reserved_words(None)
     # reserved parameter names of operations, read from the AST
     ep = ix.cls("Endpoint").methods.get("_check_parameters_for_conflicts")
@@ -254,9 +602,12 @@ def run(rep: Report, ctx: Any) -> str:
     ]
 
     w = CanonWalker(ctx.jinja, type_idents(ix))
+    w.inner_required = inner_properties_required(ix)
+    rep.indexed["inner_properties_required"] = w.inner_required
     n_scopes = 0
     n_fixed = 0
     n_events = 0
+    n_sites = n_raw = n_pairs = n_fmt = 0
     for tn in TEMPLATES:
         rep.require(tn in ctx.jinja.templates, f"template {tn}")
         items = w.walk_template(tn)
@@ -269,6 +620,10 @@ def run(rep: Report, ctx: Any) -> str:
                 collect(c)
 
         collect(root)
+        got = spelling_roles(rep, tn, scopes)
+        n_sites += got[0]
+        n_raw += got[1]
+        n_fmt += format_fields(rep, ix, tn, scopes)
         seen_scope_names: dict[str, int] = {}
         for sc in scopes:
             n_events += len(sc.events)
@@ -295,6 +650,7 @@ def run(rep: Report, ctx: Any) -> str:
                 class_reads(rep, sc, tn, path, reserved, endpoint_reserved,
                             {e.name for e in root.events if not e.hole and e.kind == "BIND"})
                 continue
+            n_pairs += hole_collisions(rep, sc, tn, path, reserved, endpoint_reserved)
             evs = attributed_events(sc)
             fixed_names = sorted({e.name for e in evs if not e.hole})
             hole_binds = [e for e in sc.events if e.hole and e.kind in ("BIND", "PARAM")]
@@ -334,7 +690,11 @@ def run(rep: Report, ctx: Any) -> str:
                              rhs="not producible, or harmless", example=ev.text)
     rep.floor("generated_scopes", n_scopes, 12)
     rep.floor("fixed_names_checked", n_fixed, 185)
-    rep.floor("skeleton_events", n_events, 19000)
+    rep.floor("skeleton_events", n_events, 7500)
+    rep.floor("identifier_hole_sites", n_sites, 10)
+    rep.floor("wire_name_roots", n_raw, 3)
+    rep.floor("overlapping_hole_classes", n_pairs, 40)
+    rep.floor("prepared_format_strings", n_fmt, 1)
     rep.indexed["skeleton_truncated_recursions"] = w.truncated
 
     # ---- R18.2 ---------------------------------------------------------------------------------------------------
@@ -363,9 +723,32 @@ def run(rep: Report, ctx: Any) -> str:
     reads = [e for e in fsc.events if not e.hole and e.kind == "READ" and e.name == "d"]
     fired = bool(hb) and any(r.pos > hb[0].pos for r in reads) and producible("d", hb[0], reserved, endpoint_reserved, "model.py.jinja")
     rep.control("R18.1 d-capture", fired)
+    # R18.3: a python name as a key, the document's own spelling as a local
+    holes3 = [("p[*].python_name", "ctl", "1.1")]
+    ctl = scan_lines(["def f(src):", "    out = {}", "    out[\"\ue0000\ue000\"] = \ue0010\ue001", "    \"\"\"\ue0000\ue000\"\"\""], [frozenset()],
+                     holes3, "control", ["p[*].name"])
+    kinds = [e.kind for e in ctl.children[0].events]
+    rep.control("R18.3 identifier as key / raw name as code", kinds.count("STRHOLE") == 1 and kinds.count("RAWCODE") == 1)
+    # R18.4: the raw value of one property kept in `<name>_data` between the binding and the read of another property's local
+    holes4 = [("p[*].python_name", "ctl", "1.1"), ("p[*].python_name", "ctl", "1.2"), ("p[*].python_name", "ctl", "1.2"),
+              ("p[*].python_name", "ctl", "2.1")]
+    ctl = scan_lines(["def f(src):", "    \ue0000\ue000 = src.pop(1)", "    \ue0001\ue000_data = src.pop(2)",
+                      "    \ue0002\ue000 = g(\ue0001\ue000_data)", "    return h(\ue0003\ue000)"], [], holes4, "control")
+    _n, verdicts = collisions(ctl.children[0], "model.py.jinja", "f", reserved, endpoint_reserved)
+    rep.control("R18.4 <name> / <name>_data", any(v[2] is not None for v in verdicts.values()))
+    # R18.5: keywords of the format call on a prepared string
+    ctl = scan_lines(["def f(\ue0000\ue000):", "    return \"\ue0010\ue001\".format(", "        \ue0000\ue000=\ue0000\ue000,", "    )"],
+                     [frozenset()], [("e.items[*].python_name", "ctl", "1.1")], "control", ["e.text"])
+    rep.control("R18.5 keyword of a prepared format string", [(e.ref, e.root) for e in ctl.children[0].events if e.kind == "FMTKW"]
+                == [("e.text", "e.items[*].python_name")])
     rep.not_decided.append("class-body reads of names that are not bound by template text at module level (e.g. helpers imported through "
                            "a property's own import lines and called in an attribute default)")
-    rep.not_decided.append("hole-versus-hole collisions between affixed names (e.g. list `a` and a property `a_item_data`)")
+    rep.not_decided.append("R18.4 follows the unrolled layout (two rounds of a top-level loop, one of a deeper one; item nesting as deep "
+                           "as macro recursion is followed) and function scopes only: two document-named class attributes of different "
+                           "classes are not compared")
+    rep.not_decided.append("R18.3 reads string literals of the generated code as written: a key that the generated code computes at "
+                           "run time is not followed; R18.5 asks for a store that depends on the members' python_name, not that every "
+                           "path to the renderer passes through it, nor that the replaced text is the whole field")
     rep.not_decided.append("code printed by a macro that is reached through a template module imported inside a branch of a non-constant "
                            "`if` and called after it (the additional-properties `construct` call of from_dict): the call stays opaque "
                            "(SkelWalker.IMPORTS_SURVIVE_IF)")
